@@ -159,6 +159,20 @@ def run(ctx):
                                       d.get("real"), d.get("evaluator")), d)
     except Exception as ex:        # the fragment tie is additional to the differential above
         ctx.correspondence_broken("compiletie-crashed", repr(ex)[:500])
+    # level 3 (stage-3 model with frames, coq/Src/Compile3.v + coq/VM/ValueVM3.v): several top-level functions,
+    # calls, recursion, self tail calls; the model's WHOLE module image and exception table against the real
+    # module, ValueVM3 against the real VM (result, prints, exception, peak sp, instruction count) and the evaluator
+    try:
+        from checks.parts import compiletie
+        ct3 = compiletie.run_compiletie(ctx, 800 if ctx.tier == "quick" else 6000, ctx.seed, level=3)
+        if ct3:
+            for d in ct3["run_diffs"][:3]:
+                if d.get("valuevm") is not None and d.get("valuevm") == d.get("evaluator"):
+                    ctx.violation("compiletie3:real-differs-from-evaluator:case%s" % d.get("case"),
+                                  "F3 program: the real VM gives %s, the evaluator (and the value-level VM model) %s" % (
+                                      d.get("real"), d.get("evaluator")), d)
+    except Exception as ex:
+        ctx.correspondence_broken("compiletie3-crashed", repr(ex)[:500])
     ctx.assumptions.extend(NOT_MODELLED)
     ctx.coverage["disagreeing_cases"] = len(r["c02"])
     ctx.coverage["corpus_programs"] = ncorpus
